@@ -289,3 +289,7 @@ mod tests {
         }
     }
 }
+
+// Verification hook: unit-level harnesses are compiled as a child module (only with `--cfg prometheus_verif`).
+#[cfg(all(prometheus_verif, any(kani, prometheus_verif_replay)))]
+include!(concat!(env!("PROMETHEUS_VERIF_INCRATE"), "/desc.rs"));
